@@ -216,6 +216,7 @@ func c07MlNode(budget int) *memberlist.KV {
 	flagext.DefaultValues(&cfg)
 	cfg.TCPTransport = memberlist.TCPTransportConfig{BindAddrs: []string{"127.0.0.1"}}
 	cfg.Codecs = []codec.Codec{c07Codec{}}
+	cfg.ObsoleteEntriesTimeout = time.Hour // entries marked deleted are not purged while a case runs
 	mkv := memberlist.NewKV(cfg, log.NewNopLogger(), c07DNS{}, prometheus.NewRegistry())
 	memberlist.VerifSetMaxCasRetries(mkv, budget)
 	if err := services.StartAndAwaitRunning(context.Background(), mkv); err != nil {
@@ -332,12 +333,23 @@ const c07Prefix = "pfx/"
 
 // apply computes what the caller-supplied function returns on its a-th invocation within one CAS call.
 func (o c07Op) apply(in interface{}, a int, id int) (out interface{}, retry bool, err error, fret string) {
-	if a < o.failFirst {
-		return nil, true, errC07Fn, "e1"
-	}
 	var cur *c07Val
 	if in != nil {
 		cur = in.(*c07Val)
+	}
+	if a < o.failFirst {
+		// "fail with retry" AFTER touching the input: like the ring lifecycler functions, the function
+		// modifies the object it was handed in place and then abandons the attempt. Every backend must
+		// hand the NEXT attempt the stored value again, not the object this attempt scribbled on.
+		if cur != nil {
+			switch o.kind {
+			case 'i':
+				cur.Ctr++
+			case 'a':
+				cur.add(id)
+			}
+		}
+		return nil, true, errC07Fn, "e1"
 	}
 	r := "0"
 	if o.retry {
@@ -450,9 +462,22 @@ func c07Build(s *c07Spec, gate func(st *c07CallerSt, toPrimary bool, in interfac
 			continue
 		}
 		v := c07ParseDigest(d)
+		// memberlist, digest with a touch mark: the key was written and then Delete()d. The entry stays in
+		// the store with its deletion mark (value kept, version bumped) until it is purged after
+		// ObsoleteEntriesTimeout; Get and CAS keep working on it. Delete merges the stored value with
+		// itself (no change: the in-place merge counts one touch), so the value found afterwards is `d`.
+		delMark := s.backend == "ml" && v.Touch > 0
+		if delMark {
+			v.Touch--
+		}
 		err := w.pri.cli.CAS(context.Background(), s.mapped(k), func(interface{}) (interface{}, bool, error) { return v, false, nil })
 		if err != nil {
 			panic("C07: cannot initialise key: " + err.Error())
+		}
+		if delMark {
+			if err := w.pri.cli.Delete(context.Background(), s.mapped(k)); err != nil {
+				panic("C07: cannot delete key: " + err.Error())
+			}
 		}
 	}
 	return w
@@ -812,7 +837,7 @@ func c07RandOp(r *rng, nKeys int, allowSlow bool) c07Op {
 	return o
 }
 
-func c07RandInit(r *rng, nKeys int, present int) []string {
+func c07RandInit(r *rng, nKeys int, present int, backend string) []string {
 	// present: 0 = all absent, 1 = all present, 2 = mixed
 	init := make([]string, nKeys)
 	for k := range init {
@@ -824,6 +849,9 @@ func c07RandInit(r *rng, nKeys int, present int) []string {
 		v := &c07Val{Ctr: r.intn(4)}
 		for i, m := 0, 1+r.intn(2); i < m; i++ {
 			v.add(1 + r.intn(9))
+		}
+		if backend == "ml" && r.chance(1, 2) {
+			v.Touch = 1 // written, then Delete()d: still in the store, marked deleted (see c07Build)
 		}
 		init[k] = c07Digest(v)
 	}
@@ -859,7 +887,7 @@ func runC07(e *env) {
 		caseNo++
 		s := &c07Spec{backend: backend, nKeys: nKeys, keyBase: fmt.Sprintf("c%dk", caseNo)}
 		s.budget = pick(r, []int{10, 10, 3, 2})
-		s.init = c07RandInit(r, nKeys, present)
+		s.init = c07RandInit(r, nKeys, present, backend)
 		c07RandWrap(r, s)
 		return s
 	}
